@@ -291,9 +291,19 @@ class Scenario:
             self._subscribe('run_info')
             self._subscribe('run_no')
             await settle()
+        try:
+            r = nl.result()
+            rs = '-' if r is None else str(r)
+        except BaseException as e:  # noqa
+            rs = f'!{type(e).__name__}'
+        try:
+            fe = nl.format_exception()
+            fe = 'N' if fe is None else ('E' if fe == '' else 'X')
+        except BaseException as e:  # noqa
+            fe = f'!{type(e).__name__}'
         lc = len(self.world.live())
         sd = sum(1 for t in self.subs if t.done())
-        return ' '.join(self.tokens + [f'st={nl.state}', f'ce={ce}', f'lc={lc}', f'sd={sd}/{len(self.subs)}'])
+        return ' '.join(self.tokens + [f'st={nl.state}', f'ce={ce}', f'rs={rs}', f'fe={fe}', f'lc={lc}', f'sd={sd}/{len(self.subs)}'])
 
     async def teardown(self) -> dict:
         """Leave nothing running; report what was still blocked."""
@@ -335,7 +345,7 @@ def group(reply: str) -> dict:
     """per-kind sequences of a reply (cross-kind order is not compared)"""
     g: dict = {}
     for tok in reply.split():
-        if tok[2:3] == '=' and tok[:2] in ('st', 'ce', 'lc', 'sd'):
+        if tok[2:3] == '=' and tok[:2] in ('st', 'ce', 'lc', 'sd', 'rs', 'fe'):
             g[tok[:2]] = [tok[3:]]
             continue
         k = tok.split(':', 1)[0]
